@@ -51,7 +51,7 @@ def parse_contracts(path):
                 sec = {"kind": d, "text": []}; cur.append(sec)
             elif d == "loop":
                 sec = {"kind": "loop", "n": int(rest), "text": []}; cur.append(sec)
-            elif d in ("before", "after"):
+            elif d in ("before", "after", "closure"):
                 n, anchor = rest.split(None, 1)
                 sec = {"kind": d, "n": int(n), "anchor": anchor, "text": []}; cur.append(sec)
             elif d == "end":
@@ -95,6 +95,8 @@ def _check_region(kind, text):
         ok = first in ("requires", "ensures", "decreases", "returns", "no_unwind")
     elif kind == "loop":
         ok = first in ("invariant", "invariant_except_break", "ensures", "decreases")
+    elif kind == "closure":
+        ok = first in ("requires", "ensures")
     elif kind == "attr":
         ok = first == "#"
     else:
@@ -219,6 +221,17 @@ def extract(repo, spec, contracts, mode, mutate=None):
     ins = []   # (index, order, text)
     bo = _fn_body_open(body)
     ex.is_fn = bo is not None and any(t.text == "fn" for t in body[:bo])
+    if bo is None and any(r == "execconst" for r, _ in ex.rewrites):
+        bo = next(i for i, t in enumerate(body) if t.text == "{" and i > 0)
+        for i, t in enumerate(body):
+            if t.kind == "punct" and t.text in OPEN and t.text != "{":
+                pass
+        # first '{' at bracket depth 0
+        d = 0
+        for i, t in enumerate(body):
+            if t.kind == "punct" and t.text in "([": d += 1
+            elif t.kind == "punct" and t.text in ")]": d -= 1
+            elif t.text == "{" and d == 0: bo = i; break
     have_sig = False
     for order, s in enumerate(secs):
         text = s["text"]
@@ -229,7 +242,7 @@ def extract(repo, spec, contracts, mode, mutate=None):
             raise UnitError(f"{ex.id}: contract section {s['kind']} on an item without a body")
         if s["kind"] == "sig":
             have_sig = True
-            if mode == "canary": text = _add_canary(text, ex.id)
+            if mode == "canary" and ex.is_fn and spec.get("canary", "1") != "0": text = _add_canary(text, ex.id)
             ins.append((bo, order, text))
         elif s["kind"] == "bodystart":
             ins.append((bo + 1, order, text))
@@ -242,7 +255,7 @@ def extract(repo, spec, contracts, mode, mutate=None):
             i = _find_seq(body, bo + 1, len(body), seq, s["n"])
             if i is None:
                 raise UnitError(f"lost anchor: {ex.id}: occurrence {s['n']} of `{s['anchor']}`")
-            ins.append((i if s["kind"] == "before" else i + len(seq), order, text))
+            ins.append((i if s["kind"] in ("before", "closure") else i + len(seq), order, text))
     if mode == "canary" and ex.is_fn and not have_sig and spec.get("canary", "1") != "0":
         ins.append((bo, -1, _add_canary("", ex.id)))
     ex.n_clauses = sum(len(re.findall(r"^\s*//#\s*\S", s["text"], re.M)) for s in secs)
